@@ -241,6 +241,16 @@ Fixpoint cycle_incs (log : list call) : list Z :=
   | _ :: r => cycle_incs r
   end.
 Definition sumZ (l : list Z) : Z := fold_right Z.add 0 l.
+(* did a Begin/EndIteration acquire the mutex in the current cycle? *)
+Fixpoint cycle_stamped (log : list call) : bool :=
+  match log with
+  | [] => false
+  | Begin :: _ => true
+  | End :: _ => true
+  | EndTest :: _ => false
+  | Reset :: _ => false
+  | _ :: r => cycle_stamped r
+  end.
 
 (* pcs at which a goroutine holds the mutex *)
 Definition u_holds (p : upc) : bool := match p with UIdle => false | _ => true end.
@@ -531,3 +541,34 @@ Definition c16_ok_sys (cycles : nat) (prog : list call) (o : sys_obs) : bool :=
 Definition c16_ok_stress (incs : list Z) (cycles flushers : nat) (o : stress_obs) : bool :=
   negb (so_blocked o) && Nat.eqb (so_live o) O && Nat.eqb (so_late o) O &&
   Nat.leb flushers cycles && Z.eqb (so_total o) (wrap64 (sumZ incs)).
+
+(* ====================================================================== *)
+(* ---- reading the shape of the code off a lock-path table (Generated/LockPaths.v) ---- *)
+From Coq Require Import String.   (* imported last: String.length/concat must not shadow List's above *)
+Definition paths_of (tbl : list (string * list lock_event)) (name : string) : list (list lock_event) :=
+  map snd (filter (fun p => String.eqb (fst p) name) tbl).
+(* every listed function occurs in the table and all its paths satisfy [ok] *)
+Definition all_paths (tbl : list (string * list lock_event)) (ok : list lock_event -> bool)
+           (names : list string) : bool :=
+  forallb (fun n => match paths_of tbl n with [] => false | ps => forallb ok ps end) names.
+
+Definition worker_names : list string :=
+  ["events.intervalStream.worker"; "events.intervalStream.worker/loop";
+   "events.intervalHistogramStream.worker"; "events.intervalHistogramStream.worker/loop"]%string.
+(* the value of the model parameter for the tree the table was read from: do all paths of
+   the two flushers (whole function and single loop iteration) release the mutex? *)
+Definition src_flusher_unlocks (tbl : list (string * list lock_event)) : bool :=
+  all_paths tbl balanced worker_names.
+
+Definition recorder_methods : list string :=
+  ["SetID"; "SetTime"; "SetTotalDuration"; "SetDuration"; "IncOperations"; "IncIterations";
+   "IncSize"; "IncError"; "SetState"; "SetWorkers"; "SetFailed"; "BeginIteration";
+   "EndIteration"; "EndTest"; "Reset"]%string.
+Definition recorder_types : list string :=
+  ["events.intervalStream"; "events.intervalHistogramStream"; "events.syncRecorder"]%string.
+(* every public method of the three recorders is, on every path, exactly Lock; ...; Unlock
+   (calls of helper methods inlined) - the shape the transition system gives to a call *)
+Definition src_methods_lock_unlock (tbl : list (string * list lock_event)) : bool :=
+  forallb (fun t => all_paths tbl (path_eqb [Lock; Unlock])
+                      (map (fun m => (t ++ "." ++ m)%string) recorder_methods)) recorder_types.
+
